@@ -44,6 +44,8 @@ import (
 	"github.com/nuts-foundation/nuts-node/audit"
 	"github.com/nuts-foundation/nuts-node/auth"
 	"github.com/nuts-foundation/nuts-node/auth/api/iam"
+	iamclient "github.com/nuts-foundation/nuts-node/auth/client/iam"
+	"github.com/nuts-foundation/nuts-node/auth/oauth"
 	"github.com/nuts-foundation/nuts-node/core"
 	nutscrypto "github.com/nuts-foundation/nuts-node/crypto"
 	"github.com/nuts-foundation/nuts-node/jsonld"
@@ -56,6 +58,7 @@ import (
 	"github.com/nuts-foundation/nuts-node/vcr/pe"
 	"github.com/nuts-foundation/nuts-node/vcr/signature"
 	"github.com/nuts-foundation/nuts-node/vcr/signature/proof"
+	"github.com/nuts-foundation/nuts-node/vdr/didjwk"
 	"github.com/nuts-foundation/nuts-node/vdr/didsubject"
 	"github.com/nuts-foundation/nuts-node/vdr/resolver"
 	"github.com/nuts-foundation/nuts-node/verifshim/vtime"
@@ -105,6 +108,9 @@ type env struct {
 	other   *party            // another holder with its own credentials
 	mallory *party            // signs with a key that is not the holder's
 	issuer  *party
+	user    *party            // end user with a user wallet (own did:jwk, own UserCredential)
+	verif   map[string]*party // tenant -> the DID the tenant's authorization server signs request objects with
+	iamc    *iamclient.MockClient
 	pdp     *policy.LocalPDP
 	auth    *auth.MockAuthenticationServices
 	subj    *didsubject.MockManager
@@ -199,6 +205,8 @@ func newEnv(t *testing.T, r *ev.Run) *env {
 	e.other = e.newParty("other", true)
 	e.mallory = e.newParty("mallory", false)
 	e.issuer = e.newParty("issuer", true)
+	e.user = e.newParty("user", false)
+	e.verif = map[string]*party{subject: e.newParty("verifier-"+subject, true), tenantB: e.newParty("verifier-"+tenantB, true)}
 	e.members = introspectionMembers()
 
 	org := descriptor{ID: "id_org", Type: "OrgCredential", FieldID: "org_name", FieldPath: "name"}
@@ -237,7 +245,24 @@ func newEnv(t *testing.T, r *ev.Run) *env {
 	e.auth.EXPECT().PublicURL().Return(u).AnyTimes()
 	e.auth.EXPECT().AuthorizationEndpointEnabled().Return(true).AnyTimes()
 	e.auth.EXPECT().SupportedDIDMethods().Return([]string{"web", "jwk"}).AnyTimes()
+	// the remote side of the authorization-code flow (the client's OpenID configuration) is the harness itself
+	e.iamc = iamclient.NewMockClient(ctrl)
+	e.iamc.EXPECT().OpenIDConfiguration(gomock.Any(), gomock.Any()).DoAndReturn(func(_ context.Context, clientID string) (*oauth.OpenIDConfiguration, error) {
+		set := jwk.NewSet()
+		for _, p := range []*party{e.holder, e.other} {
+			k, _ := jwk.FromRaw(&p.key.PublicKey)
+			_ = k.Set(jwk.KeyIDKey, p.kid)
+			_ = set.AddKey(k)
+		}
+		return &oauth.OpenIDConfiguration{Issuer: clientID, Subject: clientID, JWKs: set, Metadata: oauth.EntityStatementMetadata{
+			OpenIDProvider: oauth.AuthorizationServerMetadata{Issuer: clientID, AuthorizationEndpoint: clientID + "/authorize",
+				ClientIdSchemesSupported: []string{"entity_id"}, RequireSignedRequestObject: true}}}, nil
+	}).AnyTimes()
+	e.auth.EXPECT().IAMClient().Return(e.iamc).AnyTimes()
 	e.subj = didsubject.NewMockManager(ctrl)
+	for tenant, p := range e.verif {
+		e.subj.EXPECT().ListDIDs(gomock.Any(), tenant).Return([]did.DID{did.MustParseDID(p.did)}, nil).AnyTimes()
+	}
 	e.subj.EXPECT().Exists(gomock.Any(), subject).Return(true, nil).AnyTimes()
 	e.subj.EXPECT().Exists(gomock.Any(), tenantB).Return(true, nil).AnyTimes()
 	e.subj.EXPECT().Exists(gomock.Any(), "bob").Return(true, nil).AnyTimes()
@@ -256,7 +281,7 @@ type node struct {
 func (e *env) newNode() *node {
 	vtime.Freeze(e.base)
 	eng := sessionEngine{Engine: e.vctx.Storage, db: storage.NewInMemorySessionDatabase()}
-	w := iam.New(e.auth, e.vctx.VCR, e.vctx.KeyResolver.(resolver.DIDKeyResolver), e.subj, eng, e.pdp, e.ks, e.jsonld)
+	w := iam.New(e.auth, e.vctx.VCR, resolver.DIDKeyResolver{Resolver: didjwk.NewResolver()}, e.subj, eng, e.pdp, e.ks, e.jsonld)
 	ec := echo.New()
 	ec.HTTPErrorHandler = core.CreateHTTPErrorHandler()
 	w.Routes(ec)
@@ -1800,6 +1825,7 @@ func (e *env) runCodeCase(c codeCase, al []codeDefect) {
 	}
 	if issued {
 		f := sess.Facts
+		f.Tenant = subject
 		f.Scope, f.ClientID = "twoscope", sess.ClientID
 		n.checkIntrospection(tok.AccessToken, f, "authorization_code", c)
 	}
@@ -1852,4 +1878,479 @@ func TestVerifC02AuthCode(t *testing.T) {
 		}
 	}
 	r.Bound("max_defects_combined_authcode", k)
+}
+
+
+// ---------------------------------------------------------------- authorization-code grant: the real OpenID4VP exchange ----
+//
+// The harness plays the client, the organization wallet and the user wallet; the node is the authorization server /
+// verifier. authorize request (signed JAR) -> 302 to the wallet with a request_uri -> the harness fetches the signed
+// request object from the node (nonce, state, definition asked for) -> answers on the direct_post endpoint -> either the
+// next request (user wallet, openid4vp:) or the redirect with the authorization code -> token endpoint -> introspection.
+
+type flowAnswer struct {
+	Def   string `json:"def"`   // asked | other | foreign | both | none | repeated
+	Nonce string `json:"nonce"` // valid | stale | random | missing
+	State string `json:"state"` // valid | other-session | random
+	Aud   string `json:"aud"`   // "" = the audience asked for, else the name of an audience near-miss
+}
+
+func (a flowAnswer) String() string {
+	s := a.Def
+	if a.Nonce != "valid" {
+		s += ",nonce=" + a.Nonce
+	}
+	if a.State != "valid" {
+		s += ",state=" + a.State
+	}
+	if a.Aud != "" {
+		s += "," + a.Aud
+	}
+	return s
+}
+
+type flowCase struct {
+	Scope   string       `json:"scope"`
+	Tenant  string       `json:"tenant"`
+	Answers []flowAnswer `json:"answers"`
+}
+
+type flowRequest struct { // one OpenID4VP authorization request of the node, as fetched from its request_uri
+	Owner, DefID, Nonce, State, Audience string
+}
+
+type flowSession struct {
+	n        *node
+	tenant   string
+	scope    string
+	clientID string
+	verifier string
+	cur      *flowRequest
+	nonces   []string        // every nonce the node handed out in this session
+	usedN    map[string]bool // nonces that were sent back already
+	refDone  map[string]bool // definitions fulfilled according to the REFERENCE (verified presentation, right nonce/state/audience)
+	refWhy   map[string]string // definition id as sent -> first reference clause the last answer for it failed
+	code     string
+	dead     string
+}
+
+func (n *node) get(path string) (int, http.Header, []byte) {
+	req := httptest.NewRequest(http.MethodGet, path, nil)
+	req.Header.Set("Accept", "application/json")
+	rec := httptest.NewRecorder()
+	n.echo.ServeHTTP(rec, req)
+	return rec.Code, rec.Header(), rec.Body.Bytes()
+}
+
+// fetchRequest follows a redirect of the node to a wallet: it fetches and decodes the signed request object.
+func (fs *flowSession) fetchRequest(location string) *flowRequest {
+	e := fs.n.e
+	u, err := url.Parse(location)
+	if err != nil {
+		e.t.Fatalf("unparsable redirect %q", location)
+	}
+	ru, err := url.Parse(u.Query().Get("request_uri"))
+	if err != nil || ru.Path == "" {
+		e.t.Fatalf("redirect without request_uri: %s", location)
+	}
+	var status int
+	var body []byte
+	if u.Query().Get("request_uri_method") == "post" {
+		status, body = fs.n.post(ru.Path, url.Values{})
+	} else {
+		status, _, body = fs.n.get(ru.Path)
+	}
+	if status != 200 {
+		e.t.Fatalf("request object not served: %d %s", status, body)
+	}
+	_, claims, ok := decodeJWT(strings.TrimSpace(string(body)))
+	if !ok {
+		e.t.Fatalf("request object is not a JWT: %s", body)
+	}
+	fr := &flowRequest{Owner: "organization"}
+	fr.Nonce, _ = claims["nonce"].(string)
+	fr.State, _ = claims["state"].(string)
+	fr.Audience, _ = claims["client_id"].(string)
+	if pdu, err := url.Parse(fmt.Sprint(claims["presentation_definition_uri"])); err == nil {
+		fr.Owner = pdu.Query().Get("wallet_owner_type")
+	}
+	for _, d := range e.scopes[fs.scope] {
+		if d.Owner == fr.Owner {
+			fr.DefID = d.ID
+		}
+	}
+	fs.nonces = append(fs.nonces, fr.Nonce)
+	return fr
+}
+
+func (e *env) startFlow(n *node, tenant, scope string) (*flowSession, string) {
+	fs := &flowSession{n: n, tenant: tenant, scope: scope, clientID: "https://client.c02.example/oauth2/holder",
+		verifier: uuid.NewString() + uuid.NewString(), usedN: map[string]bool{}, refDone: map[string]bool{}, refWhy: map[string]string{}}
+	sum := sha256.Sum256([]byte(fs.verifier))
+	now := time.Now().Unix()
+	jar := sign(e.holder.key, e.holder.kid, map[string]any{"iss": fs.clientID, "aud": tenantURL(tenant), "client_id": fs.clientID,
+		"response_type": "code", "redirect_uri": fs.clientID + "/callback", "scope": scope, "state": "client-state", "nonce": uuid.NewString(),
+		"code_challenge": base64.RawURLEncoding.EncodeToString(sum[:]), "code_challenge_method": "S256", "iat": now - 1, "exp": now + 300})
+	q := url.Values{"client_id": {fs.clientID}, "request": {jar}}
+	status, hdr, body := n.get("/oauth2/" + tenant + "/authorize?" + q.Encode())
+	if status != 302 {
+		return fs, fmt.Sprintf("authorize request refused: %d %s", status, body)
+	}
+	fs.cur = fs.fetchRequest(hdr.Get("Location"))
+	return fs, ""
+}
+
+func (e *env) defByID(id string) *definition {
+	for _, defs := range e.scopes {
+		for i := range defs {
+			if defs[i].ID == id {
+				return &defs[i]
+			}
+		}
+	}
+	return nil
+}
+
+// answer sends one direct_post answer and updates the reference bookkeeping from the answer AS SENT.
+func (fs *flowSession) answer(a flowAnswer, otherState string, prevFulfilled string) (outcome string) {
+	e := fs.n.e
+	req := fs.cur
+	// which definition does the holder answer with?
+	var defID string
+	switch a.Def {
+	case "asked", "both", "none":
+		defID = req.DefID
+	case "other":
+		for _, d := range e.scopes[fs.scope] {
+			if d.ID != req.DefID {
+				defID = d.ID
+			}
+		}
+		if defID == "" {
+			defID = "pd_both_user" // single-definition scope: a definition the scope does not require
+		}
+	case "foreign":
+		defID = "pd_other"
+	case "repeated":
+		defID = prevFulfilled
+		if defID == "" {
+			defID = req.DefID
+		}
+	}
+	def := e.defByID(defID)
+	signer := e.holder
+	if def != nil && def.Owner == "user" {
+		signer = e.user
+	}
+	var creds []credSpec
+	var entries []map[string]any
+	addDef := func(d *definition) {
+		for _, desc := range d.Descriptors {
+			entries = append(entries, map[string]any{"id": desc.ID, "format": "jwt_vc", "path": fmt.Sprintf("$.verifiableCredential[%d]", len(creds))})
+			creds = append(creds, credSpec{Type: desc.Type, Subject: signer, Value: "flow-" + desc.Type})
+		}
+	}
+	if a.Def != "none" && def != nil {
+		addDef(def)
+	}
+	if a.Def == "both" {
+		for i := range e.scopes[fs.scope] {
+			if d := &e.scopes[fs.scope][i]; d.ID != defID {
+				addDef(d)
+			}
+		}
+		if len(e.scopes[fs.scope]) == 1 {
+			addDef(e.defByID("pd_other"))
+		}
+	}
+	v := vpSpec{Signer: signer, Aud: []string{req.Audience}, NbfIn: i64(-1), ExpIn: i64(120), Creds: creds}
+	if a.Aud != "" {
+		for _, nm := range audienceNearMisses() {
+			if nm.Name == a.Aud {
+				v.Aud = []string{nm.Mut(tenantURL(fs.tenant))}
+			}
+		}
+	}
+	switch a.Nonce {
+	case "valid":
+		v.Nonce = req.Nonce
+	case "stale":
+		v.Nonce = fs.nonces[0]
+		if len(fs.nonces) < 2 {
+			v.Nonce = req.Nonce + "x"
+		}
+	case "random":
+		v.Nonce = uuid.NewString()
+	}
+	state := req.State
+	switch a.State {
+	case "other-session":
+		state = otherState
+	case "random":
+		state = uuid.NewString()
+	}
+	vp := e.buildVP(&v)
+	sub, _ := json.Marshal(map[string]any{"id": uuid.NewString(), "definition_id": defID, "descriptor_map": entries})
+	form := url.Values{"vp_token": {vp}, "presentation_submission": {string(sub)}, "state": {state}}
+
+	// reference: does this answer, as sent, fulfil a definition of this session's scope?
+	f := e.facts(url.Values{"assertion": {vp}, "presentation_submission": {string(sub)}, "scope": {fs.scope}})
+	vf := f.VPs[0]
+	why := ""
+	switch {
+	case state != req.State:
+		why = "state"
+	case vf.Nonce != req.Nonce || fs.usedN[vf.Nonce]:
+		why = "nonce"
+	case !has(vf.Aud, tenantURL(fs.tenant)):
+		why = "audience"
+	case !vf.SigOK || vf.Exp <= f.SentAt:
+		why = "vp-verification"
+	case len(vf.Creds) == 0:
+		why = "no-credentials"
+	}
+	for _, c := range vf.Creds {
+		if why == "" && !(c.SigOK && c.Subject == vf.Signer && (c.Exp == 0 || c.Exp > f.SentAt)) {
+			why = "vc-verification"
+		}
+	}
+	refOK := why == ""
+	var refDef *definition
+	for i := range e.scopes[fs.scope] {
+		if e.scopes[fs.scope][i].ID == f.Definition {
+			refDef = &e.scopes[fs.scope][i]
+		}
+	}
+	if refOK && refDef != nil {
+		for _, d := range refDef.Descriptors {
+			n := 0
+			for _, en := range f.Entries {
+				if en.ID == d.ID && en.VP >= 0 && has(f.VPs[en.VP].Creds[en.Cred].Types, d.Type) {
+					n++
+				}
+			}
+			refOK = refOK && n == 1
+		}
+		refOK = refOK && len(f.Entries) == len(refDef.Descriptors)
+		if refOK {
+			fs.refDone[refDef.ID] = true
+		} else {
+			why = "submission"
+		}
+	}
+	if !refOK && f.Definition != "" {
+		fs.refWhy[f.Definition] = why
+	}
+	if vf.Nonce != "" {
+		fs.usedN[vf.Nonce] = true
+	}
+
+	preq := httptest.NewRequest(http.MethodPost, "/oauth2/"+fs.tenant+"/response", strings.NewReader(form.Encode()))
+	preq.Header.Set("Content-Type", "application/x-www-form-urlencoded")
+	preq.Header.Set("Accept", "application/json")
+	prec := httptest.NewRecorder()
+	fs.n.echo.ServeHTTP(prec, preq)
+	status, body := prec.Code, prec.Body.Bytes()
+	if status == 302 { // errors after the session is known are redirected to the client's callback
+		if lu, err := url.Parse(prec.Header().Get("Location")); err == nil {
+			fs.dead = "302:" + lu.Query().Get("error")
+			d := lu.Query().Get("error_description")
+			if len(d) > 50 {
+				d = d[:50]
+			}
+			return "refused:" + fs.dead + ":" + d
+		}
+	}
+	var resp struct {
+		RedirectURI string `json:"redirect_uri"`
+		Error       string `json:"error"`
+		Description string `json:"error_description"`
+	}
+	_ = json.Unmarshal(body, &resp)
+	if status != 200 || resp.RedirectURI == "" {
+		fs.dead = fmt.Sprintf("%d:%s", status, resp.Error)
+		d := resp.Description
+		if len(d) > 50 {
+			d = d[:50]
+		}
+		return "refused:" + fs.dead + ":" + d
+	}
+	ru, _ := url.Parse(resp.RedirectURI)
+	switch {
+	case ru.Query().Get("code") != "":
+		fs.code = ru.Query().Get("code")
+		return "code"
+	case ru.Query().Get("request_uri") != "":
+		fs.cur = fs.fetchRequest(resp.RedirectURI)
+		return "next:" + fs.cur.Owner
+	case ru.Query().Get("error") != "":
+		fs.dead = "redirect-error:" + ru.Query().Get("error")
+		return "refused:" + fs.dead
+	}
+	fs.dead = "unknown-redirect"
+	return "refused:" + fs.dead
+}
+
+func (e *env) runFlowCase(c flowCase) (outcomes []string) {
+	r := e.r
+	n := e.newNode()
+	// a second session (another scope instance) whose state can be mixed in
+	otherFS, _ := e.startFlow(n, c.Tenant, c.Scope)
+	otherState := ""
+	if otherFS.cur != nil {
+		otherState = otherFS.cur.State
+	}
+	fs, problem := e.startFlow(n, c.Tenant, c.Scope)
+	if problem != "" {
+		e.t.Fatalf("authorization request of the harness refused: %s", problem)
+	}
+	required := e.scopes[c.Scope]
+	prevFulfilled := ""
+	for i, a := range c.Answers {
+		if fs.dead != "" || fs.code != "" {
+			break
+		}
+		before := map[string]bool{}
+		for k := range fs.refDone {
+			before[k] = true
+		}
+		out := fs.answer(a, otherState, prevFulfilled)
+		outcomes = append(outcomes, out)
+		r.Outcome("flow:" + out)
+		for k := range fs.refDone {
+			if !before[k] {
+				prevFulfilled = k
+			}
+		}
+		_ = i
+	}
+	var names []string
+	for _, a := range c.Answers {
+		names = append(names, a.String())
+	}
+	r.Eval("flow|" + c.Scope + "|" + c.Tenant + "|" + strings.Join(names, ";"))
+	if fs.code == "" {
+		return
+	}
+	missing := 0
+	class := "scope-definitions-not-all-fulfilled" // a required definition was never answered at all
+	for _, d := range required {
+		if !fs.refDone[d.ID] {
+			missing++
+			if w := fs.refWhy[d.ID]; w != "" {
+				class = "answer-refused-by-reference|" + w // it was answered, by an answer the reference refuses
+			}
+		}
+	}
+	if missing > 0 {
+		r.Violation("C02|authorization_code|code-issued|"+class,
+			fmt.Sprintf("authorization code issued although %d of the %d presentation definitions of scope %q were not fulfilled by a verified presentation addressed to this server with this session's nonce and state; answers %v -> %v",
+				missing, len(required), c.Scope, names, outcomes), c)
+	}
+	// the code is exchanged at the token endpoint; the token must introspect to this session
+	issued, tok, _ := n.postCode(codeReq{Tenant: c.Tenant, Code: sp(fs.code), ClientID: sp(fs.clientID), Verifier: sp(fs.verifier)})
+	if !issued {
+		r.Observation("code-of-completed-flow-not-redeemable", map[string]any{"case": c, "error": tok.Description})
+		return
+	}
+	r.Outcome("flow:token-issued")
+	if missing > 0 {
+		r.Violation("C02|authorization_code|token-issued|"+class,
+			fmt.Sprintf("access token issued in the authorization-code grant with %d of %d definitions of scope %q unfulfilled; answers %v", missing, len(required), c.Scope, names), c)
+		return
+	}
+	for _, ext := range []bool{false, true} {
+		_, in, _ := n.introspect(tok.AccessToken, ext)
+		if in["active"] != true {
+			r.Observation("fresh-code-flow-token-inactive", map[string]any{"case": c})
+			continue
+		}
+		if in["iss"] != tenantURL(c.Tenant) || in["client_id"] != fs.clientID || in["scope"] != c.Scope {
+			r.Violation("C02|introspection|member-differs-from-issuance|authorization_code",
+				fmt.Sprintf("token of the authorization-code flow introspects to iss=%v client_id=%v scope=%v", in["iss"], in["client_id"], in["scope"]), c)
+		}
+	}
+	return
+}
+
+func TestVerifC02AuthFlow(t *testing.T) {
+	r := ev.Start(t, "C02")
+	defer r.Finish()
+	e := newEnv(t, r)
+	r.Rule("real OpenID4VP exchange of the authorization-code grant (signed authorize request -> request object fetched from the node -> " +
+		"direct_post answers -> code -> token -> introspection) for scopes with {organization} and {organization, user} definitions, on two " +
+		"tenants with prefix-related ids: every sequence of holder answers {definition asked for, the other required one, a definition of " +
+		"another scope, entries of both at once, no credentials, the one fulfilled before} x {nonce valid/stale/random/missing} x {state " +
+		"valid/of another session/random} up to the depth bound (a sequence ends at the first refusal or at the code), plus every audience " +
+		"near-miss on the direct_post answer; a code / token is issued => EVERY definition of the scope was fulfilled in this session by a " +
+		"verified presentation addressed to this tenant with this session's current nonce and state (reference evaluated on the answers as sent)")
+	r.Assume("the client's OpenID configuration (its key set and authorization endpoint) is served by a gomock IAM client; the harness itself plays client and wallets")
+	var rc flowCase
+	if os.Getenv("VERIF_REPLAY") != "" && !r.ReplayCase(&rc) {
+		return
+	}
+	if r.ReplayCase(&rc) {
+		e.runFlowCase(rc)
+		return
+	}
+	depth := 3
+	if r.Thorough() {
+		depth = 4
+	}
+	r.Bound("answers_per_session", depth)
+	var alphabetA []flowAnswer
+	for _, d := range []string{"asked", "other", "foreign", "both", "none", "repeated"} {
+		alphabetA = append(alphabetA, flowAnswer{Def: d, Nonce: "valid", State: "valid"})
+	}
+	for _, d := range []string{"asked", "other"} {
+		for _, nn := range []string{"stale", "random", "missing"} {
+			alphabetA = append(alphabetA, flowAnswer{Def: d, Nonce: nn, State: "valid"})
+		}
+		for _, st := range []string{"other-session", "random"} {
+			alphabetA = append(alphabetA, flowAnswer{Def: d, Nonce: "valid", State: st})
+		}
+	}
+	for _, nm := range audienceNearMisses() {
+		alphabetA = append(alphabetA, flowAnswer{Def: "asked", Nonce: "valid", State: "valid", Aud: nm.Name})
+	}
+	// vacuity guard: honest flows end with a token
+	for _, scope := range []string{"twoscope", "bothscope"} {
+		c := flowCase{Scope: scope, Tenant: subject}
+		for range e.scopes[scope] {
+			c.Answers = append(c.Answers, flowAnswer{Def: "asked", Nonce: "valid", State: "valid"})
+		}
+		outs := e.runFlowCase(c)
+		if len(outs) == 0 || outs[len(outs)-1] != "code" {
+			t.Fatalf("vacuity guard: the honest %s flow does not end with a code: %v", scope, outs)
+		}
+	}
+	// DFS over answer sequences: a sequence is extended only while the node keeps asking
+	idx := 0
+	var rec func(c flowCase)
+	rec = func(c flowCase) {
+		for _, a := range alphabetA {
+			if r.Expired() {
+				return
+			}
+			nc := flowCase{Scope: c.Scope, Tenant: c.Tenant, Answers: append(append([]flowAnswer{}, c.Answers...), a)}
+			mine := true
+			if len(nc.Answers) == 1 {
+				idx++
+				mine = r.Mine(idx)
+			}
+			if !mine {
+				continue
+			}
+			outs := e.runFlowCase(nc)
+			r.Transitions(int64(len(outs)))
+			if len(outs) == len(nc.Answers) && strings.HasPrefix(outs[len(outs)-1], "next:") && len(nc.Answers) < depth {
+				rec(nc)
+			}
+		}
+	}
+	for _, tenant := range []string{subject, tenantB} {
+		for _, scope := range []string{"twoscope", "bothscope"} {
+			rec(flowCase{Scope: scope, Tenant: tenant})
+		}
+	}
 }
